@@ -410,6 +410,10 @@ func c14GenBanner(seed int64, idx int) *c14BannerCase {
 	if rng.Intn(3) == 0 {
 		c.Extra = append(c.Extra, [2]string{"X-Frame-Options", "DENY"})
 	}
+	if rng.Intn(5) == 0 {
+		// a document the backend compressed (the bytes are opaque to the banner; only the frame page itself is identity-coded)
+		c.Extra = append(c.Extra, [2]string{"Content-Encoding", []string{"gzip", "br", "gzip", "deflate"}[rng.Intn(4)]})
+	}
 	if rng.Intn(4) == 0 {
 		c.Extra = append(c.Extra, [2]string{"Expires", "Thu, 01 Jan 2099 00:00:00 GMT"}, [2]string{"ETag", fmt.Sprintf(`"e%d"`, idx)})
 	}
@@ -928,6 +932,21 @@ func c14JudgeBanner(c *c14BannerCase) c14Result {
 		return fail(pre+"non-html-altered:"+what+":"+c.WhyNotD, "response that is not a frameable HTML document ("+c.WhyNotD+") was altered: "+describe()+" | "+input)
 	case c.D == c14Yes && c.Framed == c14Yes:
 		if sameBody {
+			// the framed document may be marked uncacheable / same-origin-frameable; everything that describes
+			// the body itself (encoding, type, length, cookies, ...) has to stay, or the "original body" is not usable
+			var other []string
+			for _, d := range hdrDiff {
+				name := strings.ToLower(strings.SplitN(d, ":", 2)[0])
+				switch name {
+				case "cache-control", "date", "expires", "pragma", "x-frame-options":
+				default:
+					other = append(other, d)
+				}
+			}
+			if len(other) > 0 || direct.Status != via.Status {
+				res.Outcome = "altered"
+				return fail(pre+"framed-headers-altered", "already framed request got the original body but not its headers: "+describe()+" | "+input)
+			}
 			res.Outcome = "framed-original-body"
 			if !sameAll {
 				res.Flags = append(res.Flags, "framed-headers-marked")
